@@ -61,7 +61,16 @@ func runC13(c *run.Ctx) {
 		c.Count("accepted_schemas_rechecked", 1)
 		// a well-formed document stays well-formed when it arrives on top of an accepted schema: every load validates the whole
 		// root again, so what the earlier load left behind (coerced defaults, resolved references) must pass a second time
-		for li, later := range []string{"type ZzLater0 { a: Int }", "input ZzLater1 { a: Int = 1, b: [ZzLater1!] }\n\nenum ZzLater2 { A B }", "scalar ZzLater3"} {
+		// (the last one mixes types the root already has with types that arrive with the document, in one union and one field list)
+		oldObj := ""
+		for _, t := range ms.Types {
+			if t.Kind == model.Object {
+				oldObj = t.Name
+				break
+			}
+		}
+		mixed := fmt.Sprintf("type ZzBird { a: Int old: %s olds: [%s!] }\n\nunion ZzAnimal = %s | ZzBird\n\nunion ZzAnimal2 = ZzBird | %s\n\ninterface ZzI { a: Int }\n\ntype ZzImpl implements ZzI { a: Int pet: ZzAnimal }", oldObj, oldObj, oldObj, oldObj)
+		for li, later := range []string{"type ZzLater0 { a: Int }", "input ZzLater1 { a: Int = 1, b: [ZzLater1!] }\n\nenum ZzLater2 { A B }", "scalar ZzLater3", mixed} {
 			var lerr error
 			if li == 2 {
 				lerr = root.AddTypes(&ggql.Scalar{Base: ggql.Base{N: "ZzLater3"}})
